@@ -15,7 +15,7 @@ sys.path.insert(0, os.path.dirname(os.path.abspath(__file__)))
 from vlib import *
 
 PID = 'C15'
-THEOREMS = ['C15_tentative_merged', 'C15_real_definitions_kept', 'C15_live_only_if_reachable', 'C15_marking_monotone', 'C15_nonvacuous']
+THEOREMS = ['C15_tentative_merged', 'C15_real_definitions_kept', 'C15_live_only_if_reachable', 'C15_live_if_reachable', 'C15_marking_monotone', 'C15_nonvacuous']
 MODELRUN = os.path.join(VERIF, 'ocaml/modelrun')
 
 def nm_syms(obj):
@@ -95,7 +95,7 @@ def main():
         run.proof_broken.append('scratch build of /repo failed: ' + str(e)[-800:])
         return run.finish(dict(evaluations=0), [], [])
     wd = scratch_dir()
-    run.check_proofs(deps=['theories/Model/Linkage.vo', 'theories/Proofs/LinkageProofs.vo'])
+    run.check_proofs(deps=['theories/Model/Linkage.vo', 'theories/Proofs/LinkageProofs.vo', 'theories/Proofs/LinkageComplete.vo'])
     rc, o, e = sh([os.path.join(VERIF, 'ocaml/build.sh')], timeout=900)
     if rc != 0:
         run.corr_broken.append('extracted model does not build: ' + (o + e)[-300:])
@@ -229,7 +229,6 @@ def main():
         ['gcc 12 -O0 -fcommon (chibicc defaults to -fcommon) is the reference for symbol binding/section kind and for program behaviour; plain `inline` and `extern inline` (whose C11 semantics chibicc does not claim) are not generated',
          'the system linker and libc are trusted'],
         ['Coq 8.16.1 kernel, no axioms', 'hand-written Model/Linkage.v (scan_globals, mark_live) tied by (a)',
-         'completeness of mark_live (every reachable function IS marked) is not proved, only soundness and monotonicity; it is checked by (a) against gcc and the model run',
          'codegen of symbol directives (.globl/.local/.comm/.tbss, GOTPCREL, TLS sequences) is not modelled: (a)/(b) are differential'])
 
 if __name__ == '__main__':
